@@ -122,6 +122,61 @@ def generate():
     out.append(",\n".join(rows) + "]\n")
     out.append("/-- HDF5 path of every dataset member that is appended to -/")
     out.append("def h5Paths : List (String × String) := [%s]\n" % ", ".join("(%s, %s)" % (lean_str(k), lean_str(paths[k])) for k in used))
+    # ---- record shapes: size members and the first brace list (dims) of every _makeDatasetInfo initialiser ----------
+    with open(os.path.join(REPO, SRC)) as f:
+        flat = re.sub(r"\s+", "", f.read())
+    head = flat[flat.index("vfps::HDF5File::HDF5File("):]
+    head = head[:head.index("{_file.createGroup")] if "{_file.createGroup" in head else head[:20000]
+    size_members = {}
+    for nm in ("_nBuckets", "_nBunches", "_nParticles", "_psSizeX", "_psSizeY", "_maxn", "_impSize"):
+        mm = re.search(r"," + nm + r"\(((?:[^()]|\((?:[^()]|\([^()]*\))*\))*)\)", head)
+        if not mm:
+            raise Unsupported("initialiser of %s" % nm)
+        size_members[nm] = mm.group(1)
+    want = {"_nBunches": "PhaseSpace::nb", "_nParticles": "nparticles", "_psSizeX": "PhaseSpace::nx", "_psSizeY": "PhaseSpace::ny"}
+    for k, v in want.items():
+        if size_members[k] != v:
+            raise Unsupported("%s is initialised with %s" % (k, size_members[k]))
+    mx = re.fullmatch(r"\(ef!=nullptr\)\?ef->getNMax\(\)/static_cast<size_t>\((\d+)\):0", size_members["_maxn"])
+    mi = re.fullmatch(r"imp!=nullptr\?imp->nFreqs\(\)/(\d+):0", size_members["_impSize"])
+    if not mx or not mi:
+        raise Unsupported("_maxn / _impSize initialisers: %r %r" % (size_members["_maxn"], size_members["_impSize"]))
+    dims = {}
+    for mm in re.finditer(r",(_\w+)\(_makeDatasetInfo<(\d+),\w+>\(\"([^\"]+)\",\{\{([^{}]*)\}\}", head):
+        dims[mm.group(1)] = (int(mm.group(2)), mm.group(4).split(","))
+    NAMES = {"_nBunches": "nb", "_psSizeX": "nx", "_psSizeY": "ny", "_maxn": "maxn", "_impSize": "imp", "_nParticles": "npart",
+             "_nBuckets": "nbuckets"}
+    shapes = []
+    for u in used:
+        if u not in dims:
+            raise Unsupported("no dims found for %s" % u)
+        rank, dl = dims[u]
+        if len(dl) != rank or dl[0] != "0":
+            raise Unsupported("%s: dims %r for rank %d (appended data sets start with zero records)" % (u, dl, rank))
+        rest = []
+        for d in dl[1:]:
+            if d in NAMES:
+                rest.append(NAMES[d])
+            elif re.fullmatch(r"\d+", d):
+                rest.append(d)
+            else:
+                raise Unsupported("%s: dimension %r" % (u, d))
+        shapes.append((u, rest))
+    # the gather loop of append(ElectricField*, bool)
+    g = re.search(r"constsize_trowlength=ef->getNMax\(\);std::vector<csrpower_t>rows;rows\.reserve\(_nBunches\*_maxn\);"
+                  r"for\(size_tb=0;b<_nBunches;b\+\+\)\{rows\.insert\(rows\.end\(\),spectrum\+b\*rowlength,spectrum\+b\*rowlength\+_maxn\);\}", flat)
+    if not g:
+        raise Unsupported("gather loop of the CSR spectrum rows")
+    out.append("/-- `_maxn` and `_impSize`: half the padded length of the field / half the impedance table (0 without field / impedance) -/")
+    out.append("def h5Maxn (nmax : Nat) : Nat := nmax / %s" % mx.group(1))
+    out.append("def h5ImpSize (nfreqs : Nat) : Nat := nfreqs / %s\n" % mi.group(1))
+    out.append("/-- cells of ONE record of every data set that is appended to (the dims after the record index) -/")
+    out.append("def h5RecordShape (nb nx ny maxn imp npart : Nat) : List (String × List Nat) := [%s]\n" % ", ".join(
+        "(%s, [%s])" % (lean_str(u), ", ".join(r)) for u, r in shapes))
+    out.append("/-- CSR spectrum: row `b` of the record is gathered from `spectrum + b*rowlength` (`rowlength = ef->getNMax()`), `_maxn` values -/")
+    out.append("def csrGatherStart (b rowlength : Nat) : Nat := b * rowlength")
+    out.append("def csrGatherLen (maxn : Nat) : Nat := maxn")
+    out.append("def csrGatherBunches (nb : Nat) : Nat := nb\n")
     out.append("/-- locals used as sources -/")
     out.append("def h5Locals : List (String × String) := [%s]\n" % ", ".join("(%s, %s)" % (lean_str(a), lean_str(b)) for a, b in locals_))
     out.append("end Inovesa.Gen")
